@@ -39,6 +39,12 @@ type EntryContext struct {
 	Data map[interface{}]interface{}
 }
 
+// IsPassedByInternalError reports that the request was admitted because a slot panicked before the
+// statistic slots were reached: its completion will not be reported to them.
+func (ctx *EntryContext) IsPassedByInternalError() bool {
+	return ctx.skipCompletion
+}
+
 func (ctx *EntryContext) SetEntry(entry *SentinelEntry) {
 	ctx.entry = entry
 }
